@@ -81,8 +81,22 @@ def macro_of(body, sp):
     return [x.split(":", 1)[1] for x in body.span(sp)["bt"] if x.startswith("Bang:")]
 
 
+ANON_ARGS = [False]
+
+
+def _anon(t):
+    """closure bodies: parameters by position (`_2`), their names are the author's"""
+    if not isinstance(t, tuple):
+        return t
+    if t and t[0] == "arg" and len(t) == 3 and t[1] >= 2:
+        return ("arg", t[1], "_")
+    return tuple(_anon(x) if isinstance(x, tuple) else x for x in t)
+
+
 def shape(t, depth=2):
     """Short, line-number-free description of a term for exemption keys."""
+    if ANON_ARGS[0]:
+        t = _anon(t)
     s = sym.show(t, 5 - depth)
     s = re.sub(r"@\d+", "", s)
     s = re.sub(r"_\d+", "_", s)
@@ -188,6 +202,7 @@ def analyse_body(ctx, body, max_paths=40000):
     # a site is identified by its block; events carry the block index
     global CUR_PATHS
     CUR_PATHS = paths
+    ANON_ARGS[0] = "{closure" in body.path
     for p in paths:
         for i, e in enumerate(p):
             bb = e[1] if e[0] in ("call", "assert") else None
@@ -558,12 +573,12 @@ READER_EXEMPT = {
     "escape::_escape|call:unwrap|unwrap(String::from_utf8(escaped' as Some.0))": "input is UTF-8 and only ASCII bytes are replaced by ASCII text (re-verified: C10 R1 `:ascii`), so the output is UTF-8",
     "escape::unescape_with|index-range|index(&raw, Range::Range(last_end', Iterator::find": "positions come from memchr2_iter over raw's bytes in increasing order; last_end = previous ';' + 1 <= next '&'; both are ASCII so char boundaries",
     "escape::unescape_with|index-range|index(&raw, Range::Range((Iterator::find(..) as Some.0 Add 1), Iterator>::next": "start ('&') < end (the next hit ';') of the same increasing iterator; ASCII positions are char boundaries",
-    "escape::unescape_with{c0}|assert:BoundsCheck|&(*_.0)[p]": "p is a position yielded by memchr2_iter over these very bytes",
+    "escape::unescape_with{c0}|assert:BoundsCheck|&(*_.0)[_]": "p is a position yielded by memchr2_iter over these very bytes",
     # ---- events/attributes.rs (ranges are produced by IterState over the same slice, see C11)
-    "Iterator>::next{c0}|index-range|index(&(*_.0), range)": "Attr ranges are produced by IterState::next over self.bytes (C11 R1: every range bound is an index found in that slice)",
+    "Iterator>::next{c0}|index-range|index(&(*_.0), _)": "Attr ranges are produced by IterState::next over self.bytes (C11 R1: every range bound is an index found in that slice)",
     "IterState::skip_value|index-range|index(&slice, RangeFrom::RangeFrom(offset))": "offset is the payload of State::SkipValue, an index found in the same slice by the previous next() (C11 R1 state table)",
     "IterState::skip_eq_value|index-range|index(&slice, RangeFrom::RangeFrom((offset Add 1)))": "offset is the payload of State::SkipEqValue, the index of an '=' found in the same slice (C11 R1 `next:Duplicated`), so offset + 1 <= len",
-    "IterState::check_for_duplicates{c0}|index-range|index(&(*_.0), Clone>::clone(&r))": "recorded key ranges come from the same slice",
+    "IterState::check_for_duplicates{c0}|index-range|index(&(*_.0), Clone>::clone(&_))": "recorded key ranges come from the same slice",
     "IterState::check_for_duplicates{c0}|index-range|index(&(*_.0), Clone>::clone(&(*_.1)))": "the key range was just produced from the same slice",
     "IterState::next|index-range|index(&slice, RangeFrom::RangeFrom(IterState::recover(..) as Some.0))": "recover() returns a state payload or an index found by a search in the same slice",
     # ---- events/mod.rs: BytesStart invariant name_len <= buf.len()
@@ -572,10 +587,10 @@ READER_EXEMPT = {
     "BytesStart::raw_name|index-range|index(&(*self.buf as Borrowed.0), RangeTo::RangeTo(self.name_len))": "struct invariant name_len <= buf.len() (C09 R3)",
     "BytesStart::attributes_raw|index-range|index(&(*Deref>::deref(..)), RangeFrom::RangeFrom(self.name_len))": "struct invariant name_len <= buf.len() (C09 R3)",
     # ---- name.rs
-    "QName::local_name{c0}|index-range|index(&(*_.0), RangeFrom::RangeFrom((i Add 1)))": "i is the result of self.index() = memchr(':', self.0) passed by map_or: i < len",
-    "QName::prefix{c0}|index-range|index(&(*_.0), RangeTo::RangeTo(i))": "i is the result of self.index() = memchr(':', self.0)",
+    "QName::local_name{c0}|index-range|index(&(*_.0), RangeFrom::RangeFrom((_ Add 1)))": "i is the result of self.index() = memchr(':', self.0) passed by map_or: i < len",
+    "QName::prefix{c0}|index-range|index(&(*_.0), RangeTo::RangeTo(_))": "i is the result of self.index() = memchr(':', self.0)",
     "QName::as_namespace_binding|index-range|index(&(*self.0), RangeFrom::RangeFrom(6))": "taken only when starts_with(b\"xmlns\") and get(5) == Some(':'): len >= 6",
-    "QName<'a>>>::from{c0}|index-range|index(&(*_.0), RangeFrom::RangeFrom((i Add 1)))": "i is the result of index() over the same slice",
+    "QName<'a>>>::from{c0}|index-range|index(&(*_.0), RangeFrom::RangeFrom((_ Add 1)))": "i is the result of index() over the same slice",
     "NamespaceEntry::prefix|index-range|index(&ns_buffer, Range::Range(self.start, (self.start Add self.prefix_len)))": "entries are recorded by push()/default() from buffer.len() before appending exactly prefix and value (C05 R3 push); pop() truncates buffer and bindings together",
     "NamespaceEntry::namespace|index-range|index(&buffer, Range::Range((self.start Add self.prefix_len)": "same invariant of (start, prefix_len, value_len) against the shared buffer",
     "NamespaceResolver::pop|assert:Overflow:Sub|self.nesting_level - 1": "i32 level: underflow needs 2^31 pops without a push",
@@ -603,7 +618,7 @@ READER_EXEMPT = {
     "ReaderState::emit_bang|assert:BoundsCheck|buf[(3 Add (off' Add (memchr::memchr(..) as Some.0 Add 1)))]": "haystack = buf[3..len-2] suffixes; a '-' found at p there is followed by at least the two trailing bytes `--` of buf",
     "ReaderState::emit_bang|index-range|index(&buf, RangeFrom::RangeFrom(8))": "guarded by uncased_starts_with(buf, `!DOCTYPE`): len >= 8",
     "ReaderState::emit_bang|index-range|index(&buf, RangeFrom::RangeFrom((8 Add Iterator>::position(..) as Some.0)))": "start found by position() over buf[8..]",
-    "ReaderState::emit_bang{c0}|index-range|index(&string, RangeTo::RangeTo(slice::len(&prefix)))": "right operand of `string.len() >= prefix.len() &&`",
+    "ReaderState::emit_bang{c0}|index-range|index(&_, RangeTo::RangeTo(slice::len(&_)))": "right operand of `string.len() >= prefix.len() &&`",
     "ReaderState::emit_end|index-range|index(&buf, RangeFrom::RangeFrom(1))": "called only for content starting with '/' (C01 R1 dispatch; debug_assert above): len >= 1",
     "ReaderState::emit_end|index-range|index(&self.opened_buffer, RangeFrom::RangeFrom(Vec::pop(..) as Some.0))": "popped start was pushed as opened_buffer.len() and the buffer is only truncated back to popped starts (C04 R1/R3 pairing)",
     "ReaderState::emit_end|assert:Overflow:Sub|self.offset - (slice::len(&buf) as u64)": "offset was advanced by len(buf) + 2 when the tag was read (C02 R2)",
